@@ -34,6 +34,20 @@ def resOf (line : String) : String :=
   | [_, r] => r
   | _ => "?"
 
+/-- circuit keys travel as `<short channel id>.<htlc id>`; the model's key is the injective
+    encoding `ckey chan htlc` (Model.lean, `ckey_inj`). -/
+def key? (s : String) : Option Nat :=
+  match s.splitOn "." with
+  | [c, i] =>
+    match nat? c, nat? i with
+    | some c, some i => if i < 18446744073709551616 then some (ckey c i) else none
+    | _, _ => none
+  | _ => none
+
+def kvKey? (ws : List String) (key : String) : Option Nat := (kv? ws key).bind key?
+
+def keyStr (k : Nat) : String := s!"{ckeyChan k}.{ckeyHtlc k}"
+
 def failName : FailReason → String
   | .replayToCanceled => "ReplayToCanceled"
   | .invoiceAlreadyCanceled => "InvoiceAlreadyCanceled"
@@ -106,7 +120,7 @@ def ampDump (i : AmpInv) : String :=
     ",".intercalate (hs.map fun h =>
       let b := h.base
       let p := match h.pre with | some p => hex64 p | none => "none"
-      s!"{b.key}:{b.amt}:{b.mppTotal}:{hstateStr b.state}:{b.expiry}:{b.acceptHeight}:{b.acceptTime}:{(hex64 h.setID).take 8}:{hex64 h.hash}:{p}")
+      s!"{keyStr b.key}:{b.amt}:{b.mppTotal}:{hstateStr b.state}:{b.expiry}:{b.acceptHeight}:{b.acceptTime}:{(hex64 h.setID).take 8}:{hex64 h.hash}:{p}")
   let ss := i.sets.toArray.qsort (fun a b => (hex64 a.id).take 8 < (hex64 b.id).take 8) |>.toList
   let sets := if ss.isEmpty then "-" else
     ",".intercalate (ss.map fun x => s!"{(hex64 x.id).take 8}:{hstateStr x.state}:{x.amtPaid}")
@@ -117,7 +131,7 @@ def modelDump (i : Invoice) : String :=
   let hs := i.htlcs.toArray.qsort (fun a b => a.key < b.key) |>.toList
   let htl := if hs.isEmpty then "-" else
     ",".intercalate (hs.map fun h =>
-      s!"{h.key}:{h.amt}:{h.mppTotal}:{hstateStr h.state}:{h.expiry}:{h.acceptHeight}:{h.acceptTime}")
+      s!"{keyStr h.key}:{h.amt}:{h.mppTotal}:{hstateStr h.state}:{h.expiry}:{h.acceptHeight}:{h.acceptTime}")
   let pre := match i.preimage with | some p => hex64 p | none => "none"
   s!"st={cstateStr i.state} paid={i.amtPaid} pre={pre} val={i.value} cltv={i.finalCltv} hodl={if i.hodl then 1 else 0} feat={featStr i} addr={hex64 i.payAddr} htlcs={htl} sets=-"
 
@@ -151,7 +165,7 @@ structure InvD where
 def parseHtlc (s : String) : Option HtlcD :=
   match s.splitOn ":" with
   | k :: a :: t :: st :: e :: ah :: at_ :: rest =>
-    match nat? k, nat? a, nat? t, nat? e, int? ah, nat? at_ with
+    match key? k, nat? a, nat? t, nat? e, int? ah, nat? at_ with
     | some k, some a, some t, some e, some ah, some at_ =>
       let amp := match rest with
         | [sid, hh, pp] => some (sid, hh, pp)
@@ -211,6 +225,9 @@ structure St where
   intro : List (Nat × NotifyRec) := []
   settledKeys : List Nat := []
   canceledKeys : List Nat := []
+  /-- AMP: circuit key ↦ the circuit keys (same invoice, same set id) that moved to settled in
+      the same operation, read off the dumps before / after it -/
+  groups : List (Nat × List Nat) := []
   -- counters
   lines : Nat := 0
   cases : Nat := 0
@@ -299,54 +316,59 @@ def checkSettle (s : St) (k : Nat) (r : String) : IO St := do
   let mut s := { s with settlesChecked := s.settlesChecked + 1 }
   let p := resField r 2
   if s.canceledKeys.contains k then
-    s ← monitor s "settled_and_canceled" s!"htlc {k} gets a settle resolution after it was canceled"
+    s ← monitor s "settled_and_canceled" s!"htlc {keyStr k} gets a settle resolution after it was canceled"
   s := { s with settledKeys := if s.settledKeys.contains k then s.settledKeys else k :: s.settledKeys }
   let some (d, h) := findHtlcD s.cur k
-    | monitor s "settle_htlc_recorded" s!"settle resolution for htlc {k} which is on no invoice"
+    | monitor s "settle_htlc_recorded" s!"settle resolution for htlc {keyStr k} which is on no invoice"
   if h.st != "S" then
-    s ← monitor s "settle_htlc_recorded" s!"settle resolution for htlc {k} in state {h.st}"
+    s ← monitor s "settle_htlc_recorded" s!"settle resolution for htlc {keyStr k} in state {h.st}"
   -- (1) preimage hashes to the htlc's payment hash (hash of the notify that created it)
   let some nr := (s.intro.find? (·.1 == k)).map (·.2)
-    | monitor s "settle_preimage" s!"settle for htlc {k} that was never notified"
+    | monitor s "settle_preimage" s!"settle for htlc {keyStr k} that was never notified"
   if sha256Hex p != some nr.hash then
-    s ← monitor s "settle_preimage" s!"htlc {k}: sha256(preimage {p}) is not its payment hash {nr.hash}"
+    s ← monitor s "settle_preimage" s!"htlc {keyStr k}: sha256(preimage {p}) is not its payment hash {nr.hash}"
   -- (2) the set the htlc belongs to
   let isAmp := h.amp.isSome
+  -- AMP: the htlcs of the set id that were settled by the same operation (lnd lets a settled set
+  -- id be paid again, also with another total: "its set" is what was accepted at that moment)
   let set : List HtlcD :=
-    if isAmp then d.htlcs.filter (fun g => g.st == "S" && (g.amp.map (·.1)) == (h.amp.map (·.1)))
+    if isAmp then
+      match (s.groups.find? (·.1 == k)).map (·.2) with
+      | some ks => d.htlcs.filter (fun g => ks.contains g.key)
+      | none => [h]
     else if h.total > 0 then d.htlcs.filter (fun g => g.st == "S" && g.total > 0 && g.amp.isNone)
     else [h]
   s := { s with setsChecked := s.setsChecked + 1 }
   if h.total > 0 || isAmp then
     if set.any (fun g => g.total != h.total) then
-      s ← monitor s "common_total" s!"htlc {k}: settled set on invoice {d.hash} declares different totals"
+      s ← monitor s "common_total" s!"htlc {keyStr k}: settled set on invoice {d.hash} declares different totals"
     if h.total < d.val then
-      s ← monitor s "total_ge_value" s!"htlc {k}: set total {h.total} below invoice value {d.val}"
+      s ← monitor s "total_ge_value" s!"htlc {keyStr k}: set total {h.total} below invoice value {d.val}"
     let sum := (set.map (·.amt)).foldl (· + ·) 0
     if sum < h.total then
-      s ← monitor s "sum_ge_total" s!"htlc {k}: settled set pays {sum} < declared total {h.total} (invoice {d.hash})"
+      s ← monitor s "sum_ge_total" s!"htlc {keyStr k}: settled set pays {sum} < declared total {h.total} (invoice {d.hash})"
   else
     if h.amt < d.val then
-      s ← monitor s "legacy_amount" s!"htlc {k}: amount {h.amt} below invoice value {d.val}"
+      s ← monitor s "legacy_amount" s!"htlc {keyStr k}: amount {h.amt} below invoice value {d.val}"
   for g in set do
     -- expiry margin at accept height, exact uint32(int32 sum) arithmetic
     if (g.exp : Int) < u32sum g.ah s.rejectDelta || (g.exp : Int) < u32sum g.ah d.cltv then
-      s ← monitor s "expiry_margin" s!"htlc {g.key}: expiry {g.exp} accepted at height {g.ah} with reject delta {s.rejectDelta}, final cltv delta {d.cltv}"
+      s ← monitor s "expiry_margin" s!"htlc {keyStr g.key}: expiry {g.exp} accepted at height {g.ah} with reject delta {s.rejectDelta}, final cltv delta {d.cltv}"
     -- payment address rule, from the notify that created the htlc
     match (s.intro.find? (·.1 == g.key)).map (·.2) with
     | none =>
       if d.feat.contains 'P' then
-        s ← monitor s "payment_address" s!"htlc {g.key} was never notified"
+        s ← monitor s "payment_address" s!"htlc {keyStr g.key} was never notified"
     | some n =>
       if let some (cl, why) := addrViolation n d.addr (d.feat.contains 'P') then
-        s ← monitor s cl s!"htlc {g.key} settled on invoice {d.hash} with payment address {d.addr} (feat {d.feat}): {why}"
+        s ← monitor s cl s!"htlc {keyStr g.key} settled on invoice {d.hash} with payment address {d.addr} (feat {d.feat}): {why}"
   -- AMP: per-htlc preimage recorded and valid
   if isAmp then
     for g in set do
       match g.amp with
       | some (_, hh, pp) =>
         if sha256Hex pp != some hh then
-          s ← monitor s "settle_preimage" s!"AMP htlc {g.key}: recorded preimage does not hash to {hh}"
+          s ← monitor s "settle_preimage" s!"AMP htlc {keyStr g.key}: recorded preimage does not hash to {hh}"
       | none => pure ()
   return s
 
@@ -358,6 +380,17 @@ def isCancelFail (r : String) : Bool :=
 def finishOp (s : St) : IO St := do
   if s.opKind == "" then return s
   let mut s := s
+  -- bookkeeping: AMP htlcs that moved to settled in this operation, grouped by invoice and set id
+  for d in s.cur do
+    let wasS := fun (g : HtlcD) =>
+      match s.prev.find? (·.hash == d.hash) with
+      | some d0 => d0.htlcs.any (fun g0 => g0.key == g.key && g0.st == "S")
+      | none => false
+    let fresh := d.htlcs.filter (fun g => g.st == "S" && g.amp.isSome && !wasS g)
+    for g in fresh do
+      if !(s.groups.any (·.1 == g.key)) then
+        let grp := (fresh.filter (fun x => (x.amp.map (·.1)) == (g.amp.map (·.1)))).map (·.key)
+        s := { s with groups := (g.key, grp) :: s.groups }
   -- bookkeeping: which notify created which htlc
   if let some n := s.opNotify then
     if (findHtlcD s.prev n.key).isNone && (findHtlcD s.cur n.key).isSome then
@@ -367,7 +400,7 @@ def finishOp (s : St) : IO St := do
         if let some (d, _) := findHtlcD s.cur n.key then
           s := { s with acceptsChecked := s.acceptsChecked + 1 }
           if let some (cl, why) := addrViolation n d.addr (d.feat.contains 'P') then
-            s ← monitor s cl s!"htlc {n.key} accepted ({s.opRes.take 40}) into invoice {d.hash} with payment address {d.addr} (feat {d.feat}): {why}"
+            s ← monitor s cl s!"htlc {keyStr n.key} accepted ({s.opRes.take 40}) into invoice {d.hash} with payment address {d.addr} (feat {d.feat}): {why}"
   -- concurrent group: every call of the group is treated like the notify of this operation
   for (n, res) in s.parOps do
     if (findHtlcD s.prev n.key).isNone && (findHtlcD s.cur n.key).isSome then
@@ -376,7 +409,7 @@ def finishOp (s : St) : IO St := do
         if let some (d, _) := findHtlcD s.cur n.key then
           s := { s with acceptsChecked := s.acceptsChecked + 1 }
           if let some (cl, why) := addrViolation n d.addr (d.feat.contains 'P') then
-            s ← monitor s cl s!"htlc {n.key} accepted ({res.take 40}) into invoice {d.hash} with payment address {d.addr} (feat {d.feat}): {why}"
+            s ← monitor s cl s!"htlc {keyStr n.key} accepted ({res.take 40}) into invoice {d.hash} with payment address {d.addr} (feat {d.feat}): {why}"
     if resClass res == "settle" then
       if sha256Hex (resField res 2) != some n.hash then
         s ← monitor s "settle_preimage" s!"notify for hash {n.hash} answered with a preimage that does not hash to it"
@@ -384,7 +417,7 @@ def finishOp (s : St) : IO St := do
     -- a call that was answered accept / settle must be on record (in that or a later state)
     if resClass res == "accept" || resClass res == "settle" then
       match findHtlcD s.cur n.key with
-      | none => s ← monitor s "settle_htlc_recorded" s!"concurrent call for htlc {n.key} answered {res.take 30} but the htlc is on no invoice"
+      | none => s ← monitor s "settle_htlc_recorded" s!"concurrent call for htlc {keyStr n.key} answered {res.take 30} but the htlc is on no invoice"
       | some _ => pure ()
   -- (D) replay_same_verdict
   if let some n := s.opNotify then
@@ -406,14 +439,14 @@ def finishOp (s : St) : IO St := do
               ((o == "KeySendError" && s.cfg.acceptKeysend && n.ks != "none" && n.amp.isNone) ||
                (o == "AmpError" && s.ampOn && n.amp.isSome))
             if got == "fail" && pre then
-              s ← monitor s "replay_precheck" s!"replayed htlc {n.key} recorded as {h.st} on invoice {d.hash} is answered {s.opRes} (spontaneous-payment pre-check runs before the replay check)"
+              s ← monitor s "replay_precheck" s!"replayed htlc {keyStr n.key} recorded as {h.st} on invoice {d.hash} is answered {s.opRes} (spontaneous-payment pre-check runs before the replay check)"
             else
-              s ← monitor s "replay_verdict" s!"replayed htlc {n.key} recorded as {h.st} on invoice {d.hash} is answered {s.opRes}"
+              s ← monitor s "replay_verdict" s!"replayed htlc {keyStr n.key} recorded as {h.st} on invoice {d.hash} is answered {s.opRes}"
           match s.cur.find? (·.hash == d.hash) with
           | some d' =>
             if d'.raw != d.raw then
-              s ← monitor s "replay_verdict" s!"replay of htlc {n.key} changed invoice {d.hash}"
-          | none => s ← monitor s "replay_verdict" s!"replay of htlc {n.key}: invoice {d.hash} vanished"
+              s ← monitor s "replay_verdict" s!"replay of htlc {keyStr n.key} changed invoice {d.hash}"
+          | none => s ← monitor s "replay_verdict" s!"replay of htlc {keyStr n.key}: invoice {d.hash} vanished"
   -- (A) settle_only_if_paid on every settle resolution of this operation
   if let some n := s.opNotify then
     if resClass s.opRes == "settle" then
@@ -422,14 +455,14 @@ def finishOp (s : St) : IO St := do
       s ← checkSettle s n.key s.opRes
     if resClass s.opRes == "fail" && resField s.opRes 1 == "ReplayToCanceled" then
       if s.settledKeys.contains n.key then
-        s ← monitor s "settled_and_canceled" s!"htlc {n.key} was settled and is now reported canceled"
+        s ← monitor s "settled_and_canceled" s!"htlc {keyStr n.key} was settled and is now reported canceled"
       s := { s with canceledKeys := if s.canceledKeys.contains n.key then s.canceledKeys else n.key :: s.canceledKeys }
   for (k, r) in s.opHodl do
     if resClass r == "settle" then
       s ← checkSettle s k r
     else if resClass r == "fail" then
       if s.settledKeys.contains k then
-        s ← monitor s "settled_and_canceled" s!"htlc {k} was settled and now gets {r}"
+        s ← monitor s "settled_and_canceled" s!"htlc {keyStr k} was settled and now gets {r}"
       if isCancelFail r then
         s := { s with canceledKeys := if s.canceledKeys.contains k then s.canceledKeys else k :: s.canceledKeys }
   -- (B) states_monotone
@@ -442,12 +475,12 @@ def finishOp (s : St) : IO St := do
         s ← monitor s "states_monotone" s!"invoice {d.hash}: {d.st} -> {d'.st}"
       for h in d.htlcs do
         match d'.htlcs.find? (·.key == h.key) with
-        | none => s ← monitor s "states_monotone" s!"htlc {h.key} vanished from invoice {d.hash}"
+        | none => s ← monitor s "states_monotone" s!"htlc {keyStr h.key} vanished from invoice {d.hash}"
         | some h' =>
           if !htlcStateOk h.st h'.st then
-            s ← monitor s "states_monotone" s!"htlc {h.key} on {d.hash}: {h.st} -> {h'.st}"
+            s ← monitor s "states_monotone" s!"htlc {keyStr h.key} on {d.hash}: {h.st} -> {h'.st}"
           if h.amt != h'.amt || h.total != h'.total || h.exp != h'.exp || h.ah != h'.ah then
-            s ← monitor s "states_monotone" s!"htlc {h.key} on {d.hash}: recorded terms changed"
+            s ← monitor s "states_monotone" s!"htlc {keyStr h.key} on {d.hash}: recorded terms changed"
   -- (C) amt_paid_exact
   for d in s.cur do
     if d.st == "settled" && !d.feat.contains 'a' then
@@ -478,7 +511,7 @@ def mkCtx (n : NotifyRec) : Ctx :=
           else if n.ks.length == 64 then some (some (hexNatD n.ks)) else some none }
 
 def parseNotify (rest : List String) : NotifyRec :=
-  { hash := (kv? rest "h").getD "", key := (kvNat? rest "k").getD 0, amt := (kvNat? rest "amt").getD 0,
+  { hash := (kv? rest "h").getD "", key := (kvKey? rest "k").getD 0, amt := (kvNat? rest "amt").getD 0,
     exp := (kvNat? rest "exp").getD 0, ht := (kvInt? rest "ht").getD 0,
     mpp := parseMpp ((kv? rest "mpp").getD "none"),
     amp := match kv? rest "amp" with
@@ -500,7 +533,7 @@ def modelOp (s : St) (reg' : Reg) (out : Out) (impl : String) : IO St := do
 
 def leftoverMsgs (s : St) : IO St := do
   if s.modelOn && !s.expMsgs.isEmpty then
-    let s' ← mismatch s s!"hodl: model expected {s.expMsgs.length} more message(s), first k={(s.expMsgs.headD (0, .err)).1}"
+    let s' ← mismatch s s!"hodl: model expected {s.expMsgs.length} more message(s), first k={keyStr (s.expMsgs.headD (0, .err)).1}"
     return { s' with expMsgs := [] }
   return s
 
@@ -535,7 +568,7 @@ def step (s : St) (line : String) : IO St := do
                        parOps := [], expMsgs := [], rejectDelta := r,
                        prev := [], cur := [], curNone := [], prevNone := [], opKind := "",
                        opNotify := none, opHodl := [], intro := [], settledKeys := [],
-                       canceledKeys := [], cases := s.cases + 1 }
+                       canceledKeys := [], groups := [], cases := s.cases + 1 }
     if s.samples < 2 then
       IO.println s!"SAMPLE {line}"
     return s
@@ -576,7 +609,7 @@ def step (s : St) (line : String) : IO St := do
   | "notify" :: rest =>
     let s ← startOp s "notify" line
     let n : NotifyRec :=
-      { hash := (kv? rest "h").getD "", key := (kvNat? rest "k").getD 0, amt := (kvNat? rest "amt").getD 0,
+      { hash := (kv? rest "h").getD "", key := (kvKey? rest "k").getD 0, amt := (kvNat? rest "amt").getD 0,
         exp := (kvNat? rest "exp").getD 0, ht := (kvInt? rest "ht").getD 0,
         mpp := parseMpp ((kv? rest "mpp").getD "none"),
         amp := match kv? rest "amp" with
@@ -621,16 +654,16 @@ def step (s : St) (line : String) : IO St := do
     let (reg', out) := C15.step shaNat childPre s.cfg s.reg (.tick ((kvNat? rest "dt").getD 0))
     modelOp s reg' out "ok"
   | "hodl" :: rest =>
-    let k := (kvNat? rest "k").getD 0
+    let k := (kvKey? rest "k").getD 0
     let r := resOf line
     let s := { s with opHodl := s.opHodl ++ [(k, r)], nontrivial := s.nontrivial + 1,
                        hist := bump s.hist ("hodl_" ++ resClass r ++ "_" ++ resField r 1) }
     if !s.modelOn then return s
     match s.expMsgs.find? (·.1 == k) with
-    | none => mismatch s s!"hodl k={k}: impl={r}, model expects no message for this key"
+    | none => mismatch s s!"hodl k={keyStr k}: impl={r}, model expects no message for this key"
     | some (_, m) =>
       let s := { s with expMsgs := s.expMsgs.filter (·.1 != k) }
-      if resStr m == r then pure s else mismatch s s!"hodl k={k}: model={resStr m} impl={r}"
+      if resStr m == r then pure s else mismatch s s!"hodl k={keyStr k}: model={resStr m} impl={r}"
   | "inv" :: rest =>
     let h := (kv? rest "h").getD ""
     let r := resOf line
